@@ -372,7 +372,9 @@ def run(ctx):
         "(partial, as DESIGN.md §5 C03 says); OpenType and AAT fonts are separate streams",
     ]
     ctx.regen()
-    ctx.prove(MODULE)
+    if not ctx.prove(MODULE):
+        import _pairflag as PFn
+        PFn.name_failed_theorems(ctx)
     shim = vlib.build_harness()
     b = dict(F.constants(shim)[1])
     pc, pt = b["PRODUCE_UNSAFE_TO_CONCAT"], b["PRODUCE_SAFE_TO_INSERT_TATWEEL"]
@@ -394,6 +396,15 @@ def run(ctx):
     ctx.correspond("gpos-value-worked", lines=GF.val_lines(rg, ctx.budget(3000, 100000)), classify=GF.classify_val, canon=GF.canon)
     ctx.correspond("gpos-pair-flags", lines=GF.pair_lines(rg, ctx.budget(4000, 150000), pc), classify=GF.classify_pair, canon=GF.canon)
     GF.hook_search(ctx, shim, ctx.rng("gpos-flags-search"), ctx.budget(4000, 150000), pc)
+    # pair kerning / pair positioning with the real skipping iterator and every flag call (PairFlag.lean; theorems
+    # C03_kern_pair_flags_inspected, C03_kern_machine_flags_inspected, C03_kerx_simple_flags_inspected, C03_pairpos_flags_inspected)
+    import _pairflag as PF
+    rk = ctx.rng("pair-span")
+    kpl = PF.kerx_plans(shim)
+    ctx.correspond("kern-machine-flags", lines=PF.mk_lines(rk, ctx.budget(3000, 100000), pc), classify=PF.classify_k, canon=GF.canon)
+    ctx.correspond("kerx-simple-flags", lines=PF.kx_lines(rk, ctx.budget(2000, 60000), pc, kpl), classify=PF.classify_k, canon=GF.canon)
+    ctx.correspond("gpos-pair-iter", lines=PF.pair_lines(rk, ctx.budget(3000, 100000), pc), classify=PF.classify_pair, canon=GF.canon)
+    PF.hook_search(ctx, shim, ctx.rng("pair-span-search"), ctx.budget(3000, 100000), pc, kpl)
     interior_search(ctx, shim, ctx.rng("interior"), ctx.budget(20000, 300000))
     carry_search(ctx, shim, ctx.rng("carry-exact"), ctx.budget(10000, 200000), pc, pt)
     break_synth_search(ctx, shim, ctx.rng("break-synth"), ctx.budget(200, 4000), 12, pc, pt)
@@ -428,6 +439,9 @@ def replay(ctx, rp):
         d = (GF.val_eval if rp["stream"] == "value-worked" else GF.pair_eval)(rp["request"], o)[0]
         print("request:", rp["request"]); print("reply  :", o[-1500:]); print("deviation:", d)
         return 1 if d else 0
+    if rp.get("stream") in ("kern-span", "kerx-span", "pairpos-miss-span"):
+        import _pairflag as PF
+        return PF.replay_search(rp, shim, dict(F.constants(shim)[1])["PRODUCE_UNSAFE_TO_CONCAT"])
     if rp.get("stream") == "interior-exact":
         o = vlib.run_lines(shim, [rp["request"]], nproc=1)[0]
         d = interior_eval(rp["request"], o)[0]
